@@ -1059,3 +1059,25 @@ Lemma drop_needs_pure :
   peep false (BCall "SIntTimes" [Const FSInt 0; Leaf FSInt 3 true]) = (BCall "SIntTimes" [Const FSInt 0; Leaf FSInt 3 true], true) /\
   peep false (BCall "SIntTimes" [Const FSInt 0; Leaf FSInt 3 false]) = (Const FSInt 0, true).
 Proof. vm_compute. repeat split; reflexivity. Qed.
+
+(* ---------------------------------------------------------------- what the model does NOT cover: the float rows
+
+   With -Qffold the pass uses foamBValOpInfoTableFast, where the SFlo/DFlo builtins stand for the GENERIC
+   operations (x - x = 0, x / x = 1, x * 0 = 0, x = x ...).  Those identities fail for NaN, infinities
+   and signed zeros.  The fragment gives a float (or big-integer) builtin no value at all, so every
+   theorem above is vacuous for an expression containing one: nothing is claimed about these rows.  They
+   are decided by running (tools/c02_float.py, keys peep:fast-float-table:<shape>). *)
+Definition outside_model_ty (t : fty) : bool :=
+  match t with FSFlo | FDFlo | FBInt => true | _ => false end.
+
+Lemma float_rows_have_no_spec :
+  forallb (fun r => negb (outside_model_ty (btype r)) || match sop_of (bname r) with None => true | Some _ => false end)
+          (peep_bvals_fast ++ peep_bvals_slow) = true.
+Proof. vm_compute. reflexivity. Qed.
+
+Lemma float_rows_not_covered r vs :
+  In r (peep_bvals_fast ++ peep_bvals_slow) -> outside_model_ty (btype r) = true -> bval (bname r) vs = None.
+Proof.
+  intros Hin Ht. pose proof float_rows_have_no_spec as H. rewrite forallb_forall in H. specialize (H r Hin).
+  rewrite Ht in H. cbn [negb orb] in H. unfold bval. destruct (sop_of (bname r)); [discriminate|reflexivity].
+Qed.
